@@ -6,8 +6,14 @@ from .core.cond import all_tests, call_site_of, borrowed_local, const_of, result
 from .core.slicing import origins, origin_calls, origin_args
 from .core.effects import provenance
 from .core.readflags import checkpoint_edges, stateful_edges, guarded
+from .core.symexpr import expr, show, strip_refs
+from . import fmtfeat
 
 RULES = {
+    "C15.5": "the recount's raw material counts every entry the recovery scan accepts: in startup_chore's per-unit entry scan (the loop around Block::read on the unit's stub) every "
+             "path from the Ok edge of the read to the next iteration or out of the loop increments the per-block entry counter - the same condition that lets the scan accept the "
+             "entry's bytes (`used += consumed`) lets it count the entry. A counter that is incremented behind the `offset >= DEFAULT_BLOCK_SIZE` exit leaves the last entry of an "
+             "exactly full block uncounted: after a restart the topic's count is one short per such block",
     "C15.1": "who-may-write: the only bodies that take the write lock of Walrus.topic_entry_counts are increment_topic_entry_count, decrement_topic_entry_count and the recovery recount",
     "C15.2": "increments: the only call sites of increment_topic_entry_count are the two append APIs; each is dominated by the Ok edge of the writer call and its delta is the constant 1 "
              "(single append) resp. `batch.len() as u64` of the very slice handed to the writer (batch append); no success return is reachable without passing the increment",
@@ -505,6 +511,69 @@ def check_recount(ctx, facts):
     ctx.floor("C15.4", "partial-block counts in the recount", n_part, 1)
 
 
+def check_recovery_counts_every_entry(ctx, facts, rid="C15.5"):
+    from .core.cond import result_edges
+    b = facts.body("walrus::Walrus::startup_chore")
+    ctx.saw_body(b)
+    F = "walrus::Walrus::startup_chore"
+    n = 0
+    for c in b.calls(re.compile(r"block::Block::read$")):
+        hb, L = c.bb, None
+        for _ in range(16):
+            L = b.natural_loop(hb)
+            if L and c.bb in L:
+                break
+            L = None
+            if b.idom.get(hb) is None or b.idom[hb] == hb:
+                break
+            hb = b.idom[hb]
+        if L is None:
+            continue
+        # the per-block entry counter: a named integer local advanced by the constant 1 inside the loop
+        incs = {}
+        for site, st in b.assigns():
+            if site.bb not in L or st["place"]["p"] or not b.local_name(st["place"]["l"]):
+                continue
+            e = strip_refs(expr(b, st["rv"]["op"])) if st["rv"]["k"] == "use" else None
+            if e is not None and e[0] == "Add" and fmtfeat.const_eval(e[2]) == 1 and show(strip_refs(e[1])) == b.local_name(st["place"]["l"]):
+                incs.setdefault(st["place"]["l"], []).append(site.bb)
+        for c2 in b.calls(re.compile(r"::saturating_add$|::wrapping_add$|::checked_add$")):
+            if c2.bb in L and len(c2.node["args"]) == 2 and const_of(b, c2.node["args"][1]) == 1 and not c2.node["dest"]["p"]:
+                dl = c2.node["dest"]["l"]
+                a0 = op_local(b.resolve_copy(c2.node["args"][0]))
+                tgt = dl if b.local_name(dl) else next((st["place"]["l"] for s_, st in b.assigns() if st["rv"]["k"] == "use" and op_local(st["rv"]["op"]) == dl and not st["place"]["p"] and b.local_name(st["place"]["l"])), None)
+                if tgt is not None and a0 is not None and (a0 == tgt or b.local_name(a0) == b.local_name(tgt)):
+                    incs.setdefault(tgt, []).append(c2.bb)
+        if not incs:
+            ctx.anchor_missing(rid, "the per-block entry counter (+1 per entry) of the recovery scan in startup_chore")
+            return
+        ok_edges, err_edges = result_edges(b, c)
+        ok_edges = [e for e in ok_edges if e[0] in L and e[1] in L]
+        # the edge on which the result is first found to be Ok (later tests of values moved out of it are behind it)
+        ok_edges = [e for e in ok_edges if not any(e2 != e and b.dominates(e2[1], e[0]) for e2 in ok_edges)]
+        if not ok_edges:
+            ctx.anchor_missing(rid, "the Ok edge of Block::read in the recovery scan")
+            return
+        n += 1
+        exits = [v for (u, v) in b.loop_exits(L)]
+        targets = set(exits) | {hb}
+        bad = None
+        for cl, bbs in incs.items():
+            for e in ok_edges:
+                start = e[1]
+                if start in bbs:
+                    continue
+                if not b.must_pass([start], targets, bbs):
+                    bad = bad or (cl, e)
+        if bad:
+            ctx.violate(rid, F, "scanned-entry-not-counted", b.relfile, b.term(bad[1][0]).get("line"),
+                        "the recovery scan can accept an entry (Ok from Block::read) and leave the loop or go on to the next entry without incrementing `%s`: the per-block entry "
+                        "counts that the recount sums are short by one for such a block (e.g. a block filled exactly to DEFAULT_BLOCK_SIZE, whose last entry ends the scan)" % b.local_name(bad[0]))
+        else:
+            ctx.ok(rid, F, "every entry the recovery scan accepts is counted (%s)" % ", ".join(sorted(b.local_name(x) for x in incs)), b.relfile, c.line)
+    ctx.floor(rid, "recovery entry-scan loops", n, 1)
+
+
 def run(ctx):
     for k, v in RULES.items():
         ctx.rule(k, v)
@@ -513,6 +582,7 @@ def run(ctx):
     check_increments(ctx, facts)
     check_decrements(ctx, facts)
     check_recount(ctx, facts)
+    check_recovery_counts_every_entry(ctx, facts)
     ctx.assume("the arithmetic of the recount after restart (rebuild_topic_entry_counts_after_recovery) is NOT decided beyond C15.4's must-depend clause")
     ctx.assume("that the batch counter equals the number of entries *returned* is C01.1's obligation (known finding there), not repeated here")
     return {
